@@ -491,3 +491,23 @@ Lemma goto_keeps_state code st n j : nth_error code (pc st) = Some (SGoto n) -> 
 Proof.
   intros H Hj. exists (set_pc st j). rewrite (goto_step code st n j H Hj). repeat split.
 Qed.
+
+(* ------------------------------------------------------------------ IF c THEN n / ELSE n: any line number *)
+
+(* IF c THEN n with c true jumps to line n - for every n that exists, line 0 included *)
+Lemma if_then_jump code st c n z j : nth_error code (pc st) = Some (SIf c (Some n)) ->
+  eval (ds st) c = EV z -> z <> 0 -> find_line code n = Some j -> step code st = Go (set_pc st j) [].
+Proof.
+  intros H He Hz Hj. rewrite (step_at code st _ H). cbv zeta. rewrite He. unfold with_val.
+  assert (E : negb (z =? 0) = true) by (apply negb_true_iff, Z.eqb_neq; exact Hz). rewrite E.
+  unfold jump. rewrite Hj. reflexivity.
+Qed.
+
+(* IF c THEN .. ELSE n with c false jumps to line n *)
+Lemma if_else_jump code st c tj k n j : nth_error code (pc st) = Some (SIf c tj) ->
+  eval (ds st) c = EV 0 -> find_else_from (skipn (S (pc st)) code) (S (pc st)) 0 = ElseAt k (Some n) ->
+  find_line code n = Some j -> step code st = Go (set_pc st j) [].
+Proof.
+  intros H He Hf Hj. rewrite (step_at code st _ H). cbv zeta. rewrite He. unfold with_val. simpl negb. cbv iota.
+  rewrite Hf. unfold jump. rewrite Hj. reflexivity.
+Qed.
